@@ -480,6 +480,13 @@ func (st *State) applySpec(spec *FuncSpec, sig *types.Signature, args []Value, p
 	for i := 0; i < rs.Len(); i++ {
 		res = append(res, st.symbolicValue("r_"+short, rs.At(i).Type()))
 	}
+	// ghost assignments of the callee's contract (trusted for external callees)
+	for _, gs := range spec.GhostSets {
+		env := mkEnv(pre)
+		env.res = res
+		st.ghostAssign(env, gs[0], gs[1])
+		st.assumeAll(env.defs)
+	}
 	for _, c := range spec.Ensures {
 		env := mkEnv(st)
 		env.res = res
@@ -513,6 +520,12 @@ func (st *State) havocLocation(env *Env, m *Expr) {
 		st.assume(e.typeInv(T, nt))
 		return
 	}
+	if hn, sort, idx, ok := env.ghostArrayElem(m); ok {
+		cur := st.heapGet(hn, sort)
+		_, es := splitArraySort(sort)
+		st.heapSet(hn, sort, Store(cur, idx, e.fresh("hav", es)))
+		return
+	}
 	switch m.Kind {
 	case EIdent:
 		if m.Op == "everything" {
@@ -528,6 +541,9 @@ func (st *State) havocLocation(env *Env, m *Expr) {
 				pk = env.pkg.Name()
 			}
 			gd := e.specs.Ghosts[pk+"."+m.Op]
+			if gd == nil {
+				gd = e.specs.Ghosts["prelude."+m.Op]
+			}
 			hn := "GH_" + sanitize(gd.PkgName+"_"+gd.Name)
 			st.heapHavoc(hn, g.Tm.Sort)
 			return
@@ -688,6 +704,42 @@ func (e *Engine) pkgQualifiedHeap(m *Expr) (string, Sort, types.Type, bool) {
 		}
 	}
 	return "", "", nil, false
+}
+
+// ghostArrayElem: a modifies entry g[i] with g a ghost variable of array type
+func (env *Env) ghostArrayElem(m *Expr) (string, Sort, Term, bool) {
+	if m.Kind != EIndex {
+		return "", "", Term{}, false
+	}
+	b := m.Args[0]
+	var gd *GhostDecl
+	e := env.eng()
+	if b.Kind == EIdent {
+		if _, isVar := env.vars[b.Op]; isVar {
+			return "", "", Term{}, false
+		}
+		pk := ""
+		if env.callee != nil {
+			pk = env.callee.PkgName
+		} else if env.pkg != nil {
+			pk = env.pkg.Name()
+		}
+		gd = e.specs.Ghosts[pk+"."+b.Op]
+		if gd == nil {
+			gd = e.specs.Ghosts["prelude."+b.Op]
+		}
+	} else if b.Kind == ESel && b.Args[0].Kind == EIdent {
+		gd = e.specs.Ghosts[b.Args[0].Op+"."+b.Op]
+	}
+	if gd == nil || gd.IsField {
+		return "", "", Term{}, false
+	}
+	T := e.resolveType(gd.Type, gd.PkgName)
+	if _, ok := T.Underlying().(*types.Array); !ok {
+		return "", "", Term{}, false
+	}
+	idx := env.evalInt(m.Args[1])
+	return "GH_" + sanitize(gd.PkgName+"_"+gd.Name), e.sortOf(T), idx, true
 }
 
 // tryMapExpr: a modifies entry that denotes a map object (a variable or field of map type)
@@ -1183,6 +1235,10 @@ func (u *Unit) checkFrame(st *State, pos token.Pos) {
 			allowedAll[hn] = true
 			continue
 		}
+		if hn, _, idx, ok := env.ghostArrayElem(m); ok {
+			allowedObj[hn] = append(allowedObj[hn], objLoc{ref: idx})
+			continue
+		}
 		// object-granular?
 		switch m.Kind {
 		case ESel:
@@ -1320,7 +1376,11 @@ func (e *Engine) modifiesHeapNames(spec *FuncSpec, m *Expr, ws *writeSet) bool {
 			ws.all = true
 			return true
 		}
-		if gd := e.specs.Ghosts[spec.PkgName+"."+m.Op]; gd != nil && !gd.IsField {
+		gdx := e.specs.Ghosts[spec.PkgName+"."+m.Op]
+		if gdx == nil {
+			gdx = e.specs.Ghosts["prelude."+m.Op]
+		}
+		if gd := gdx; gd != nil && !gd.IsField {
 			T := e.resolveType(gd.Type, gd.PkgName)
 			ws.heap["GH_"+sanitize(gd.PkgName+"_"+gd.Name)] = e.sortOf(T)
 			return true
@@ -1403,6 +1463,23 @@ func (e *Engine) modifiesHeapNames(spec *FuncSpec, m *Expr, ws *writeSet) bool {
 			}
 		}
 	case EIndex, ESlice:
+		if m.Kind == EIndex {
+			b := m.Args[0]
+			var gd *GhostDecl
+			if b.Kind == EIdent {
+				gd = e.specs.Ghosts[spec.PkgName+"."+b.Op]
+				if gd == nil {
+					gd = e.specs.Ghosts["prelude."+b.Op]
+				}
+			} else if b.Kind == ESel && b.Args[0].Kind == EIdent {
+				gd = e.specs.Ghosts[b.Args[0].Op+"."+b.Op]
+			}
+			if gd != nil && !gd.IsField && e.staticTypeOfSpecExpr(spec, b) == nil {
+				T := e.resolveType(gd.Type, gd.PkgName)
+				ws.heap["GH_"+sanitize(gd.PkgName+"_"+gd.Name)] = e.sortOf(T)
+				return true
+			}
+		}
 		if T := e.staticTypeOfSpecExpr(spec, m.Args[0]); T != nil {
 			if sl, ok := types.Unalias(T).Underlying().(*types.Slice); ok {
 				n, s := e.memName(sl.Elem())
